@@ -28,6 +28,10 @@ def gen_inputs(ctx):
     ]
     for f in fixed:
         out.append(("fixed", f))
+    # a peer that names an account again and again without ever logging in, and then talks garbage
+    for f in (b"USER alice\r\nUSER alice\r\n\xff\xfe\r\n", b"USER alice\r\nUSER alice\r\nUSER alice\r\nUSER alice\r\n", b"USER alice\r\nPASS wrong\r\nUSER alice\r\nPASS\r\n\x00\r\n",
+              b"USER alice\r\nUSER bob\r\nUSER alice\r\nuser ALICE\r\nUSER alice", b"USER alice\r\nUSER alice\r\nQUIT\r\n"):
+        out.append(("fixed", f))
     # verbs that are not commands but ARE names the server object knows (its methods and attributes): to the
     # dispatcher they are unknown verbs like any other
     import aioftp
@@ -58,7 +62,9 @@ def gen_inputs(ctx):
 
 
 async def _case(loop, data, login_first, end_kind):
-    wd = W.World(loop, S.USERS_ANON, server_kwargs={"maximum_connections": 2})
+    # (alice may have one session at a time: a slot of hers that a garbage session keeps is missed by the next login)
+    users = [W.UserSpec(u.login, u.password, home=u.home, max_conn=(1 if u.login == "alice" else None)) for u in S.USERS_ANON]
+    wd = W.World(loop, users, server_kwargs={"maximum_connections": 2})
     await wd.start()
     out = {}
     try:
@@ -108,6 +114,10 @@ async def _case(loop, data, login_first, end_kind):
         out["n_greeting"] = [int(c) for c, _ in n.replies]
         c2, _, _, _ = await W.run_line(wd, n, b"USER bob") if not n.eof else ([], 0, 0, 0)
         out["n_user"] = c2
+        # ... and so are the slots of the accounts G named: alice can log in
+        ca, _, _, _ = await W.run_line(wd, n, b"USER alice") if not n.eof else ([], 0, 0, 0)
+        cp, _, _, _ = await W.run_line(wd, n, b"PASS secret") if not n.eof else ([], 0, 0, 0)
+        out["n_alice"] = (ca, cp)
         out["connections_now"] = len(wd.server.connections)
         o.close()
         n.close()
@@ -193,6 +203,8 @@ def run(ctx, compare=True):
             res.oracle_failures.append({"input": inp, "what": "after the garbage session the bystander cannot list the root any more: LIST -> %r, MLSD -> %r, session ended: %r" % o["o_list"], "signature": "C19:server:other-session-disturbed"})
         elif o["n_greeting"] != [220] or o["n_user"] != [230]:
             res.oracle_failures.append({"input": inp, "what": "after the garbage session's peer disconnected a new session is not admitted (greeting %r, USER %r): its slot was not released" % (o["n_greeting"], o["n_user"]), "signature": "C19:server:slot-not-released"})
+        elif o.get("n_alice") != ([331], [230]):
+            res.oracle_failures.append({"input": inp, "what": "after the garbage session is gone, a new session logging in as alice (one session allowed) is answered %r: a slot of hers was not given back" % (o.get("n_alice"),), "signature": "C19:server:user-slot-not-released"})
         elif o["connections_now"] != 2:
             res.oracle_failures.append({"input": inp, "what": "%d entries in server.connections, expected the bystander and the new session only" % o["connections_now"], "signature": "C19:server:session-not-removed"})
         else:
